@@ -191,10 +191,21 @@ class C12(Check):
         lines = [E.model_line(c) for c in cases]
         out = ctx.driver(lines) if ctx.model_ok else [None] * len(lines)
         try:
-            for c, line, m in zip(cases, lines, out):
-                r = E.impl_reply(c)
+            for idx, (c, line, m) in enumerate(zip(cases, lines, out)):
+                stats = {} if idx % 8 == 0 else None     # instrumented sample: how often the queues are really used
+                r = E.impl_reply(c, stats)
                 first = r.split(' ')[0]
                 moved = ' / - / -' not in r or bool(c['saved']) or bool(c['pushed'])
+                if stats:
+                    if stats['handed_back']:
+                        ctx.count('engine-sample:token-handed-back')
+                        moved = True
+                    if stats['popped']:
+                        ctx.count('engine-sample:token-popped')
+                    if stats['pushed']:
+                        ctx.count('engine-sample:token-pushed')
+                        moved = True
+                    ctx.count('engine-sample:cases')
                 ctx.case(key=line, nontrivial=moved, kind='engine:%s:%s%s' % (tag, first, ':dirty' if c['saved'] or c['pushed'] else ''),
                          sample={'engine': line, 'impl': r})
                 if m is None:
